@@ -583,7 +583,12 @@ class ViewParameter(AbstractParameter, ParameterListener):
     @tensor.setter
     def tensor(self, tensor: Tensor) -> None:
         self.parameter.tensor[..., self.indices] = tensor
-        self.parameter.fire_parameter_changed()
+        # a view of a view writes into the storage of the underlying parameter:
+        # its other listeners must hear about the change too
+        parameter = self.parameter
+        while isinstance(parameter, ViewParameter):
+            parameter = parameter.parameter
+        parameter.fire_parameter_changed()
 
     @property
     def shape(self) -> torch.Size:
